@@ -5,9 +5,13 @@ use crate::engine::schema::store::header::{
     ensure_header, is_file_empty, read_and_validate_header,
 };
 use crate::engine::schema::store::reader::read_records;
-use crate::engine::schema::store::types::{SchemaStoreDiagnostics, SchemaStoreOptions};
+use crate::engine::schema::store::types::{
+    MAX_RECORD_LEN_BYTES, SchemaStoreDiagnostics, SchemaStoreOptions,
+};
 use crate::engine::schema::store::writer::write_record;
+use crate::shared::storage_header::BinaryHeader;
 use std::fs::{File, OpenOptions};
+use std::io::{Read, Seek, SeekFrom};
 use std::path::PathBuf;
 
 #[derive(Debug, Clone, PartialEq)]
@@ -46,6 +50,7 @@ impl SchemaStore {
 
     pub fn append(&self, record: &SchemaRecord) -> Result<(), SchemaError> {
         let file = OpenOptions::new()
+            .read(true)
             .append(true)
             .create(true)
             .open(&self.file_path)
@@ -54,6 +59,7 @@ impl SchemaStore {
         let guard = FileLockGuard::new_exclusive(file)?;
         let file_mut = guard.get_mut();
         ensure_header(file_mut)?;
+        Self::drop_incomplete_tail(file_mut)?;
         write_record(file_mut, record)?;
 
         if self.options.fsync {
@@ -62,6 +68,33 @@ impl SchemaStore {
                 .map_err(|e| SchemaError::IoWriteFailed(e.to_string()))?;
         }
 
+        Ok(())
+    }
+
+    /// Cuts off a partial record at the end of the file (left by a crash or a failed write
+    /// during an earlier append): the reader stops at it, so every record appended behind
+    /// it would be lost. Complete records, readable or not, are left alone.
+    fn drop_incomplete_tail(file: &mut File) -> Result<(), SchemaError> {
+        let io = |e: std::io::Error| SchemaError::IoWriteFailed(e.to_string());
+        let len = file.metadata().map_err(io)?.len();
+        let mut pos = BinaryHeader::TOTAL_LEN as u64;
+        while pos < len {
+            if len - pos < 8 {
+                return file.set_len(pos).map_err(io);
+            }
+            let mut record_len = [0u8; 4];
+            file.seek(SeekFrom::Start(pos)).map_err(io)?;
+            file.read_exact(&mut record_len).map_err(io)?;
+            let record_len = u32::from_le_bytes(record_len);
+            if record_len > MAX_RECORD_LEN_BYTES {
+                return Ok(()); // not a torn append: leave it to diagnose/repair
+            }
+            let next = pos + 8 + record_len as u64;
+            if next > len {
+                return file.set_len(pos).map_err(io);
+            }
+            pos = next;
+        }
         Ok(())
     }
 
